@@ -1748,6 +1748,38 @@ GEN(int) @Gen(n int) {
 	RETURN
 }`, Drives: []Drive{fn("int", "@Plain", ""), fn("int", "@Sibling", ""), fn("int", "@Param", "@inc"), gen("int", "@Gen", "2")}},
 
+	{Name: "ParenthesisedYieldStatement", Props: []string{"C12", "C01", "C02"}, Src: `
+// a call statement may be parenthesised (Go spec, Expression statements)
+GEN(int) @G(n int) {
+	YIELD(1)
+	(YIELD(2))
+	for i := 0; i < n; i++ { ((YIELD(10 + i))) }
+	YIELD(3)
+	RETURN
+}`, Drives: []Drive{gen("int", "@G", "2"), gen("int", "@G", "0")}},
+
+	{Name: "EtaVariadicForwardedAsOne", Props: []string{"C07", "C13"}, Src: `
+// a variadic closure that passes its parameter slice as ONE argument is not its callee, although the types agree
+func @count(xs ...any) int { return len(xs) }
+func @F() int {
+	one := func(xs ...any) int { return @count(xs) }
+	all := func(xs ...any) int { return @count(xs...) }
+	return 100*one(1, 2, 3) + 10*all(1, 2, 3) + one()
+}
+GEN(int) @G() { YIELD(@F()); RETURN }`, Drives: []Drive{fn("int", "@F", ""), gen("int", "@G", "")}},
+
+	{Name: "EtaPartiallyInstantiatedGeneric", Props: []string{"C07", "C13", "C11"}, Src: `
+// the callee is a generic function instantiated only in part: the rest is inferred from the call's arguments
+func @conv[A, B any](b B) A { var a A; _ = b; return a }
+func @pair[A, B any](a A, b B) int { return 2 }
+func @F() int {
+	h := func(s string) int { return @conv[int](s) }
+	k := func(a int, b string) int { return @pair[int](a, b) }
+	full := func(s string) int { return @conv[int, string](s) }
+	return h("x") + k(1, "y") + full("z")
+}
+GEN(int) @G() { YIELD(@F()); RETURN }`, Drives: []Drive{fn("int", "@F", "")}},
+
 	{Name: "EtaBuiltin", Props: []string{"C13", "C11", "C07"}, Src: `
 func @F(s string) int {
 	f := func(s string) int { return len(s) }
@@ -2025,6 +2057,18 @@ GEN(int) @G() {
 		if i == 0 { a[1], a[2] = 20, 30 }
 		YIELD(v)
 	}
+	RETURN
+}`, Drives: []Drive{gen("int", "@G", "")}},
+
+	{Name: "PartialRedeclarationAcrossYield", Props: []string{"C03", "C01"}, Finding: "D30", Src: `
+// 'b, err := ...' after a yield: err was declared earlier in the SAME block, so := assigns to it (only b is new)
+GEN(int) @G() {
+	a, err := 1, 0
+	show := func() int { return err }
+	YIELD(a)
+	b, err := 2, 7
+	YIELD(b + err)
+	YIELD(show())
 	RETURN
 }`, Drives: []Drive{gen("int", "@G", "")}},
 
